@@ -320,3 +320,107 @@ Proof.
          end.
   exact I.
 Qed.
+
+(* ---------- the test builtin ---------- *)
+Lemma iso_upd_tests f s1 s2 t1 fl1 t2 fl2 :
+  iso f s1 s2 -> t1 = t2 -> fl1 = fl2 -> iso f (upd_tests t1 fl1 s1) (upd_tests t2 fl2 s2).
+Proof. intros I -> ->. destruct I. constructor; simpl; auto. Qed.
+
+Definition rt_validate (args : list loc) : M unit :=
+  match args with
+  | [] => fail (EPanic PkBadArguments)
+  | [a] => let* v := unwrap_any a in match v with HBool _ => ret tt | _ => fail (EPanic PkBadArguments) end
+  | _ :: _ :: rest =>
+      match rest with
+      | m :: _ => let* v := unwrap_any m in match v with HStr _ => ret tt | _ => fail (EPanic PkBadArguments) end
+      | [] => ret tt
+      end
+  end.
+Definition rt_verdict (d : nat) (args : list loc) : M bool :=
+  match args with
+  | [a] => let* v := unwrap_any a in match v with HBool b => ret b | _ => crash "test: not a bool" end
+  | w :: g :: _ => same d w g
+  | [] => ret true
+  end.
+Definition rt_bump (failed : bool) (s : state) : state :=
+  upd_tests (S (st_total s)) (if failed then S (st_fails s) else st_fails s) s.
+Definition rt_body (d : nat) (args : list loc) : M unit :=
+  fun s0 =>
+    match rt_validate args s0 with
+    | (Er e, s1) => (Er e, rt_bump false s1)
+    | (Ok _, s1) =>
+        match rt_verdict d args s1 with
+        | (Er e, s2) => (Er e, rt_bump false s2)
+        | (Ok true, s2) => (Ok tt, rt_bump false s2)
+        | (Ok false, s2) =>
+            let s3 := rt_bump true s2 in
+            if st_failfast s3 then (Er ETestFail, s3) else (Ok tt, s3)
+        end
+    end.
+Lemma run_test_eq args : run_test args = (let* d := depth_fuel in rt_body d args).
+Proof. reflexivity. Qed.
+
+Lemma iso_bump f s1 s2 b : iso f s1 s2 -> iso f (rt_bump b s1) (rt_bump b s2).
+Proof.
+  intro I. unfold rt_bump. apply iso_upd_tests; auto.
+  - f_equal; destruct I; assumption.
+  - destruct b; [f_equal|]; destruct I; assumption.
+Qed.
+
+Lemma sim_rt_validate f a1 a2 : lrels f a1 a2 -> sim f (eqrel unit) (rt_validate a1) (rt_validate a2).
+Proof.
+  intro A. unfold rt_validate. unfold lrels, listrel in A.
+  inversion A as [|x1 x2 t1 t2 Hx A1]; subst; [prim|].
+  inversion A1 as [|y1 y2 u1 u2 Hy A2]; subst.
+  - ssolve.
+  - inversion A2 as [|z1 z2 w1 w2 Hz A3]; subst; [prim|]. ssolve.
+Qed.
+Lemma sim_rt_verdict f d a1 a2 : lrels f a1 a2 -> sim f (eqrel bool) (rt_verdict d a1) (rt_verdict d a2).
+Proof.
+  intro A. unfold rt_verdict. unfold lrels, listrel in A.
+  inversion A as [|x1 x2 t1 t2 Hx A1]; subst; [prim|].
+  inversion A1 as [|y1 y2 u1 u2 Hy A2]; subst.
+  - ssolve.
+  - apply sim_same; assumption.
+Qed.
+
+Lemma sim_run_test f a1 a2 : lrels f a1 a2 -> sim f (eqrel unit) (run_test a1) (run_test a2).
+Proof.
+  intro A. rewrite !run_test_eq. sbind prim. deq.
+  intros s1 s2 I. unfold rt_body.
+  destruct (sim_rt_validate _ _ _ A s1 s2 I) as (f' & E' & I' & Rr).
+  destruct (rt_validate a1 s1) as [[u1|er1] t1], (rt_validate a2 s2) as [[u2|er2] t2];
+    simpl in Rr, I'; try contradiction.
+  2: { exists f'. split; auto. split; [|exact Rr]. simpl. apply iso_bump; auto. }
+  destruct (sim_rt_verdict _ b _ _ (mono _ _ _ _ E' A) t1 t2 I') as (f'' & E'' & I'' & Rr').
+  destruct (rt_verdict b a1 t1) as [[[|]|er1] r1], (rt_verdict b a2 t2) as [[[|]|er2] r2];
+    simpl in Rr', I''; unfold eqrel in Rr'; try contradiction; try discriminate.
+  - exists f''. split; [eapply ext_trans; eauto|]. split; [|reflexivity]. simpl. apply iso_bump; auto.
+  - exists f''. split; [eapply ext_trans; eauto|].
+    pose proof (iso_bump _ _ _ true I'') as I3. cbv zeta.
+    replace (st_failfast (rt_bump true r2)) with (st_failfast (rt_bump true r1))
+      by (apply (iso_failfast _ _ _ I3)).
+    destruct (st_failfast (rt_bump true r1)); simpl; split; auto; reflexivity.
+  - exists f''. split; [eapply ext_trans; eauto|]. split; [|exact Rr']. simpl. apply iso_bump; auto.
+Qed.
+
+(* ---------- parameter binding ---------- *)
+Lemma sim_bind_params f ps : forall a1 a2 fr1 fr2,
+  lrels f a1 a2 -> framerel f fr1 fr2 ->
+  sim f (pairrel framerel lrels) (bind_params ps a1 fr1) (bind_params ps a2 fr2).
+Proof.
+  induction ps as [|[n t] ps IH]; intros a1 a2 fr1 fr2 A F; simpl.
+  - apply sim_ret. split; assumption.
+  - unfold lrels, listrel in A. inversion A as [|x1 x2 t1 t2 Hx A']; subst; [prim|].
+    apply IH; [exact A'|]. destruct (str_eqb n underscore); auto. apply framerel_set; auto.
+Qed.
+
+Lemma sim_bind_payload f ps : forall args fr1 fr2,
+  framerel f fr1 fr2 -> sim f framerel (bind_payload ps args fr1) (bind_payload ps args fr2).
+Proof.
+  induction ps as [|[n t] ps IH] in f |- *; intros args fr1 fr2 F; simpl.
+  - apply sim_ret. assumption.
+  - destruct args as [|a more]; [prim|].
+    sbind ltac:(instantiate (1 := lrel); destruct t, a; prim).
+    apply IH. destruct (str_eqb n underscore); auto. apply framerel_set; auto.
+Qed.
